@@ -24,6 +24,8 @@ pub fn path_pool() -> Vec<Vec<Vec<u8>>> {
         vec![seg("")],
         vec![seg("sensors"), seg("temperature-with-a-long-name")],
         vec![seg("é"), seg("ü")],
+        vec![seg("p"), "s".repeat(270).into_bytes()],
+        vec![seg("twelve-bytes"), seg("thirteenbytes"), seg("fourteen-bytes")],
     ]
 }
 
@@ -80,7 +82,14 @@ pub fn gen_req_opts(ch: &mut Ch) -> Vec<(u16, Vec<u8>)> {
     match ch.weighted(&[40, 10, 10, 6, 6, 6, 6, 4, 4, 4, 4], "qopts") {
         0 => vec![],
         1 => vec![(3, b"host.example".to_vec())],
-        2 => vec![(15, b"q=1".to_vec()), (15, b"verbose".to_vec())],
+        2 => {
+            if ch.below(3, "qopts.q") == 0 {
+                // a value that starts with a zero byte
+                vec![(15, vec![0, 1, 2]), (15, vec![0])]
+            } else {
+                vec![(15, b"q=1".to_vec()), (15, b"verbose".to_vec())]
+            }
+        }
         // No-Response with its natural values (bit mask of 2.xx / 4.xx / 5.xx)
         3 => vec![(258, vec![*ch.pick(&[2u8, 0, 8, 16, 24, 26], "qopts.noresp")])],
         4 => vec![(17, vec![60]), (2049, vec![7; 3])],
@@ -196,7 +205,7 @@ pub fn response_overhead(token_len: usize, opts: &[(u16, Vec<Vec<u8>>)], with_bl
 
 /// Budget drawn relative to an overhead so that the interesting region is hit.
 pub fn gen_budget(ch: &mut Ch, ov: usize) -> usize {
-    match ch.weighted(&[30, 25, 20, 15, 10, 5], "budget.mode") {
+    match ch.weighted(&[30, 25, 20, 15, 10, 5, 6], "budget.mode") {
         0 => 1152,
         1 => ov + 28 + ch.below(121, "budget.dense") as usize,
         2 => {
@@ -207,6 +216,8 @@ pub fn gen_budget(ch: &mut Ch, ov: usize) -> usize {
         }
         3 => (ov + 28 + ch.below((1280usize.saturating_sub(ov + 28)) as u64 + 1, "budget.rnd") as usize).min(1280),
         4 => ov + 28, // the edge of the stated range
-        _ => 1153 + ch.below(128, "budget.top") as usize, // above the default, up to the stated maximum
+        5 => 1153 + ch.below(128, "budget.top") as usize, // above the default, up to the stated maximum
+        // absolute powers of two and their neighbours
+        _ => ((32usize << ch.below(6, "budget.pow2")) as i64 + ch.below(5, "budget.pow2.d") as i64 - 2) as usize,
     }
 }
